@@ -196,7 +196,7 @@ def spec_text(b, ae, policy_trim):
     trim = b["trim"] if b["trim"] is not None else policy_trim
     s = "".join(p[1] if p[0] == "t" else "\x00" + p[1] + "\x01" for p in ps)
     if trim:
-        s = re.sub(r"\s*\n\s*", " ", s.strip())
+        s = re.sub(r"\s*(?:\r\n|\r|\n)\s*", " ", s.strip())
 
     def sub(m):
         v, mk = vals[m.group(1)]
@@ -207,7 +207,17 @@ def spec_text(b, ae, policy_trim):
     return re.sub("\x00(\\w+)\x01", sub, s)
 
 
-def real_run(jinja2, src, data, markup, style, ae, policy_trim, axis="plain", delims=None):
+def nl_norm(b, nl):
+    """what the lexer hands to the extension: line breaks of template data normalized to newline_sequence"""
+    if nl == "\n":
+        return b
+
+    def f(ps):
+        return None if ps is None else [(p[0], re.sub(r"\r\n|\r|\n", nl, p[1]) if p[0] == "t" else p[1]) for p in ps]
+    return dict(b, sing=f(b["sing"]), plur=f(b["plur"]))
+
+
+def real_run(jinja2, src, data, markup, style, ae, policy_trim, axis="plain", delims=None, nl="\n"):
     """-> (rendered | None, recorded calls, error); axis = configuration / installer variant"""
     from markupsafe import Markup
     rec = []
@@ -230,7 +240,7 @@ def real_run(jinja2, src, data, markup, style, ae, policy_trim, axis="plain", de
         ngettext = staticmethod(ng)
         pgettext = staticmethod(pg)
         npgettext = staticmethod(npg)
-    kw = dict(extensions=["jinja2.ext.i18n"], autoescape=ae)
+    kw = dict(extensions=["jinja2.ext.i18n"], autoescape=ae, newline_sequence=nl)
     if delims:
         kw.update(block_start_string=delims[0], block_end_string=delims[1], variable_start_string=delims[2],
                   variable_end_string=delims[3])
@@ -276,9 +286,9 @@ def real_run(jinja2, src, data, markup, style, ae, policy_trim, axis="plain", de
     return out, rec, None
 
 
-def extract_both(jinja2, src, style, policy_trim):
+def extract_both(jinja2, src, style, policy_trim, nl="\n"):
     from jinja2.ext import extract_from_ast, babel_extract
-    env = jinja2.Environment(extensions=["jinja2.ext.i18n"])
+    env = jinja2.Environment(extensions=["jinja2.ext.i18n"], newline_sequence=nl)
     env.policies["ext.i18n.trimmed"] = policy_trim
     env.newstyle_gettext = (style == "new")
     alias = {"_": "gettext"}
@@ -352,7 +362,7 @@ def run(ctx):
         ctx.count("k_trim")
         if dec(o) != real:
             ctx.model_mismatch("K-trim trim_ws vs _trim_whitespace", {"s": s}, dec(o), real,
-                               None if real == re.sub(r"\s*\n\s*", " ", s.strip()) else "trimmed text is not the documented one")
+                               None if real == re.sub(r"\s*(?:\r\n|\r|\n)\s*", " ", s.strip()) else "trimmed text is not the documented one")
         else:
             ctx.validated()
 
@@ -373,14 +383,17 @@ def run(ctx):
     jobs = []
     for b in blocks:
         pol = ctx.rng.random() < 0.3
+        nl = ctx.rng.choice(["\n", "\n", "\n", "\r\n", "\r"])
         for st, ae in configs:
-            jobs.append((b, st, ae, pol))
-    mouts = ctx.driver("i18n", [model_line(b, st, ae, pol) for b, st, ae, pol in jobs])
-    for (b, st, ae, pol), mo in zip(jobs, mouts):
-        src = print_block(b)
+            jobs.append((b, st, ae, pol, nl))
+    mouts = ctx.driver("i18n", [model_line(nl_norm(b, nl), st, ae, pol) for b, st, ae, pol, nl in jobs])
+    for (b0_, st, ae, pol, nl), mo in zip(jobs, mouts):
+        src = print_block(b0_)
+        b = nl_norm(b0_, nl)
+        ctx.count("newline_" + {"\n": "lf", "\r\n": "crlf", "\r": "cr"}[nl])
         axis = ctx.rng.choice(AXES)
         ctx.count("axis_" + axis)
-        out, rec, err = real_run(jinja2, src, b["data"], b["markup"], st, ae, pol, axis)
+        out, rec, err = real_run(jinja2, src, b["data"], b["markup"], st, ae, pol, axis, nl=nl)
         m = re.match(r"R (\S+) C (\S+) S (\S+) P (\S+)$", mo)
         m_out = None if m.group(1) == "N" else dec(m.group(1))
         m_call = (None if m.group(2) == "none" else dec(m.group(2)), dec(m.group(3)), None if m.group(4) == "none" else dec(m.group(4)))
@@ -396,7 +409,7 @@ def run(ctx):
         text = "".join(p[1] for p in b["sing"] + (b["plur"] or []) if p[0] == "t")
         nt = (has_var and ("%" in text or "\n" in text)) or b["plur"] is not None
         case = {"kind": "trans", "source": src, "data": {k: (v if isinstance(v, (int, float, bool)) else str(v)) for k, v in b["data"].items()},
-                "markup": b["markup"], "style": st, "autoescape": ae, "policy_trimmed": pol, "axis": axis,
+                "markup": b["markup"], "style": st, "autoescape": ae, "policy_trimmed": pol, "axis": axis, "newline_sequence": nl,
                 "block": dict(b, data={k: (v if isinstance(v, (int, float, bool)) else str(v)) for k, v in b["data"].items()})}
         ctx.case(sample={"source": src, "data": b["data"], "style": st, "autoescape": ae, "render": out, "gettext_call": rec}
                  if nt and len(ctx.samples) < 5 else None,
@@ -412,7 +425,7 @@ def run(ctx):
         # oracle (b): run-time messages are extracted
         if of is None:
             try:
-                ea, eb = extract_both(jinja2, src, st, pol)
+                ea, eb = extract_both(jinja2, src, st, pol, nl)
             except Exception as e:
                 ea = eb = None
                 of = f"extraction raised {type(e).__name__}: {e}"
@@ -422,6 +435,11 @@ def run(ctx):
                     if nc not in ea:
                         of = f"message {nc!r} passed at run time is not reported by extract_from_ast: {ea!r}"
                     elif nc not in eb:
+                        if nl != "\n" and any(isinstance(x, str) and ("\r" in x) for x in c[1:]):
+                            # babel_extract has no newline_sequence option: recorded finding, judged separately
+                            ctx.reject(dict(case, kind="babel-newline"), f"message {nc!r} passed at run time under newline_sequence={nl!r} "
+                                       f"is reported by babel_extract with \\n line breaks: {eb!r}", "C33:babel-extract-newline-sequence")
+                            continue
                         of = f"message {nc!r} passed at run time is not reported by babel_extract: {eb!r}"
         sig = "C33:install-after-overlay" if axis == "overlay_install_after" else "C33:trans-block"
         if (m_out, m_call) != (out, r_call):
@@ -620,7 +638,7 @@ def replay(ctx, data):
         b["plur"] = [tuple(p) for p in b["plur"]] if b["plur"] is not None else None
         b["decl"] = [tuple(p) for p in b["decl"]]
         out, rec, err = real_run(jinja2, case["source"], b["data"], b["markup"], case["style"], case["autoescape"], case["policy_trimmed"],
-                                 case.get("axis", "plain"))
+                                 case.get("axis", "plain"), nl=case.get("newline_sequence", "\n"))
         spec = spec_text(b, case["autoescape"], case["policy_trimmed"])
         print("source  :", case["source"], "\nrendered:", repr(out), err or "", "\nspec    :", repr(spec), "\ncalls   :", rec)
         if out != spec:
